@@ -1,7 +1,7 @@
 """C20 — every failure surfaces as a catchable exception: no terminate, no leak.
 
-(a) Coq: propagation theorems over the Exn language, models of the two scopes whose destructors call throwing code (CSV:
-refuted witness F18 + exact characterisation; MsgPack: full strength since the repair of F17); (b) translator: tools/inventory.py regenerates
+(a) Coq: propagation theorems over the Exn language, models of the two scopes whose destructors call throwing code (CSV
+and MsgPack: full strength since the repairs of F18 / F17; the unguarded destructors kept as refuted variants); (b) translator: tools/inventory.py regenerates
 coq/InvGenerated.v at import time of this module (before `check` builds Properties_C20.vo): T_C20_throwing_dtors pins the
 set of destructors that call possibly-throwing code; (c) correspondence of the two scope models with the library
 (extracted OCaml model vs harness/drv_fault.cpp) and exhaustive fault enumeration (truncation, allocation failure, stream
@@ -9,24 +9,24 @@ failure, library-detected save errors), each fault point in its own child proces
 import os, re
 import inv_common as IC
 
-LEVEL = "other"
+LEVEL = "proof"     # partial, see EXPLANATION
 EXPLANATION = (
     "partial. Proved (Coq, closed under the global context): in the exception/scope semantics of C++ (destructors run innermost "
     "first on normal and exceptional exit; an exception leaving an implicitly-noexcept destructor calls std::terminate) an exception "
     "thrown by any action at any nesting depth reaches the caller as that exception and the process is never terminated, provided no "
     "destructor on the way can throw (T_C20_propagation, T_C20_never_terminate, T_C20_err_was_thrown). For the MsgPack map load "
-    "(memory reader, modelled byte subset) this holds at full strength for every input since F17 was repaired in /repo "
-    "(T_C20_msgpack_never_terminates, T_C20_msgpack_propagates, T_C20_msgpack_complete_doc_ok; T_C20_msgpack_unguarded_dtor_terminates "
-    "shows the old destructor violating it). The property is still FALSE of the CSV writer: T_C20_dtor_terminates_refuted (row narrower "
-    "than the first -> ~CCsvWriteObjectScope -> NextLine throws), with the exact characterisation T_C20_csv_outside / "
-    "T_C20_csv_width_error_never_surfaces. The two scope models are tied to the code by correspondence (extracted model vs driver on every "
+    "(memory reader, modelled byte subset) and for the CSV save (string writer) this holds at full strength for every input since F17 "
+    "and F18 were repaired in /repo (T_C20_msgpack_never_terminates, T_C20_msgpack_propagates, T_C20_msgpack_complete_doc_ok, "
+    "T_C20_csv_never_terminates, T_C20_csv_width_error_surfaces: OutOfRange exactly when a row differs in width from the first); "
+    "T_C20_msgpack_unguarded_dtor_terminates and T_C20_csv_unguarded_dtor_terminates show the old destructors violating it. The two scope models are tied to the code by correspondence (extracted model vs driver on every "
     "truncation of generated maps and on random row-width lists). The translator (clang AST, regenerated every run) pins the set of "
     "destructors and of noexcept functions whose bodies call possibly-throwing code (T_C20_throwing_dtors, T_C20_noexcept_callers), so a "
     "destructor that starts calling throwing code breaks an obligation before a failing input is known. NOT proved, only observed by "
     "exhaustive fault injection in child processes under ASan+LSan: allocation failure at every operator new, stream failure at every "
     "byte, truncation at every length of representative documents in all four archives, library-detected mid-save errors; leak freedom; "
-    "destructibility after failure. TERMINATE / HANG outcomes explained by the listed known findings (F18, F37, F38, F39) are reported as "
-    "KNOWN-FINDING; any other TERMINATE, HANG, LEAK or CRASH is a violation.")
+    "destructibility after failure. TERMINATE / HANG outcomes explained by the listed known findings are reported as KNOWN-FINDING "
+    "(none is open: F17, F18, I37, I38, I39 were found by this check and repaired in /repo); any other TERMINATE, HANG, LEAK or CRASH "
+    "is a violation.")
 TRUSTED_BASE = [
     "Coq 8.16.1 kernel incl. vm_compute; axioms: none (every T_C20_* prints 'Closed under the global context')",
     "modelled, not verified: the C++ rule that an exception leaving a destructor without noexcept(false) calls std::terminate ([except.spec], [except.terminate]) — it is the definition of `close` in coq/InvSpec.v",
@@ -176,7 +176,8 @@ def one_pass(vlib, impl, model, rng, tier, known, classes):
     """model correspondence + fault enumeration at the volume of `tier`"""
     failing, diffs = [], []
     # ---- (c1) the scope models against the library
-    cases = IC.load_corpus("C20") + gen_model_cases(rng, tier)
+    corpus = IC.load_corpus("C20")
+    cases = corpus + gen_model_cases(rng, tier)
     cases = [c for c in cases if c.startswith(("mpmap ", "csvrows "))]
     oi = vlib.run_driver(impl, cases, timeout=900)
     om = vlib.run_driver(model, cases)
@@ -220,6 +221,7 @@ def one_pass(vlib, impl, model, rng, tier, known, classes):
             hang_votes[(t[1], t[2])] = hang_votes.get((t[1], t[2]), 0) + 1
     hanging = set(k for k, v in hang_votes.items() if v >= 2)
     flines = [l for l in fault_lines(counts, tier, hanging) if l not in po]
+    flines += [c for c in corpus if c.startswith("scen ") and c not in po and c not in flines]
     fo = vlib.run_driver(impl, flines, timeout=1800, chunk=max(4, len(flines) // (4 * vlib.NCPU)))
     flines = pl + flines
     fo = [po[l] for l in pl] + fo
